@@ -21,7 +21,11 @@ Section C14.
   (* termination is by construction: string_top / safe_str / safe_str_leaf are total, fuel-free
      functions that do not recurse through the heap.  On every well-formed heap -- tags consistent
      with payloads, no dangling reference; cycles allowed -- the rendering is a string (no panic,
-     nothing unmodelled), for single values and for Println of any operand list *)
+     nothing unmodelled), for single values and for Println of any operand list.
+     wf_value (Proofs/C14_print.v) covers: nil, booleans, the integer tags, float64, strings, and slice /
+     map / struct values that are nil or refer to an object of the heap.  It EXCLUDES function values
+     (TypeFunc) and host objects (TypeObject): their rendering (an address / the host's String method) is
+     not modelled and this theorem says nothing about operands that are or contain one. *)
   Theorem c14_total : forall h,
     wf_heap h ->
     (forall v, wf_value h v -> exists s, string_top ff h v = Ok s) /\
@@ -36,7 +40,12 @@ Section C14.
   Proof. exact (depth_bound ff). Qed.
 
   (* booleans, integers of each width (int8, uint8, int32, uint32: all values, including
-     uint32 >= 2^31), floats and strings print as Go prints them *)
+     uint32 >= 2^31) and strings print as Go prints them.
+     The float conjunct is PARAMETRIC / definitional: model and spec share the formatter [ff] (a Section
+     variable standing for strconv's shortest representation), so `string_top ... (Fn f) = go_fmt (GFloat f)`
+     holds for every ff, by unfolding both sides to `ff f`.  It says that goatlang hands the float64 to fmt
+     unchanged (no rounding, no own formatting); it says NOTHING about how a float is formatted.  The actual
+     formatting is compared with the Go toolchain by the correspondence c14-corr only. *)
   Theorem c14_scalars : forall h,
     (forall b : bool, string_top ff h (mkValue TypeBool (Zn (if b then 1 else 0)) PNone) = Ok (go_fmt ff (GBool b))) /\
     (forall t z, bits t <= 32 -> in_range t z = true ->
@@ -47,13 +56,24 @@ Section C14.
 
   (* every operand of nesting depth <= 2 (scalars; slices, single-entry/empty/nil maps of scalars;
      slices and maps of those; struct references whose fields have depth <= 1) prints as Go prints it,
-     in any heap that represents it *)
+     in any heap that represents it.
+     What [repr] (Proofs/C14_print.v) does NOT relate, so that the theorem is silent about it:
+     - the Go value GNil (nil interface / nil pointer): no goatlang value represents it -- see
+       c14_nil_refuted below for what goatlang prints there;
+     - maps with two or more entries (Go sorts the keys; not modelled), struct references nested inside a
+       slice or map (Go prints an address), function and host values. *)
   Theorem c14_nested : forall h v g,
     repr_top h v g -> (depth_top g <= 2)%nat -> string_top ff h v = Ok (go_fmt_top ff g).
   Proof. exact (nested_correct ff). Qed.
 
-  (* Println: operands separated by exactly one space, newline appended; Sprint the same without
-     newline; Print/Sprint of one operand = the operand *)
+  (* Println: operands separated by exactly one space, newline appended: Go's fmt.Println rule
+     (go_println).  Print of ONE operand = the operand (go_print1).
+     The Sprint conjunct states the MODEL's rule -- always one space between operands
+     (join_sp (map go_fmt_top gs)) -- which is goatlang's vaSprint, NOT Go's fmt.Sprint: Go's Sprint (and
+     Print) add a space between two operands only when neither is a string (fmt.Sprint("a","b") = "ab",
+     goatlang prints "a b").  So for >= 2 operands that conjunct describes goatlang's behaviour against its
+     own rule, and agrees with Go only when no two adjacent operands include a string; for one operand it
+     is Go's result. *)
   Theorem c14_println : forall h vs gs,
     Forall2 (fun v g => repr_top h v g /\ (depth_top g <= 2)%nat) vs gs ->
     fmt_Println ff h vs = Ok (go_println ff gs) /\
